@@ -1512,6 +1512,11 @@ class BootstrapElectionModel(BaseElectionModel):
             aggregate_temp_column_name = "-".join(aggregate)
             all_units[aggregate_temp_column_name] = all_units[aggregate].agg("_".join, axis=1)
             dummies = pd.get_dummies(all_units[aggregate_temp_column_name])
+            # keep the groups in the order of the frames that are sorted by the aggregate columns; the order of the
+            # joined strings differs from it when keys have different lengths (e.g. districts 1 and 10)
+            dummies = dummies[
+                all_units[aggregate].drop_duplicates().sort_values(aggregate).agg("_".join, axis=1).tolist()
+            ]
         else:
             # since aggregate is of length zero we can grab the first element
             dummies = pd.get_dummies(all_units[aggregate[0]])
@@ -1661,6 +1666,11 @@ class BootstrapElectionModel(BaseElectionModel):
             aggregate_temp_column_name = "-".join(aggregate)
             all_units[aggregate_temp_column_name] = all_units[aggregate].agg("_".join, axis=1)
             dummies = pd.get_dummies(all_units[aggregate_temp_column_name])
+            # keep the groups in the order of the frames that are sorted by the aggregate columns; the order of the
+            # joined strings differs from it when keys have different lengths (e.g. districts 1 and 10)
+            dummies = dummies[
+                all_units[aggregate].drop_duplicates().sort_values(aggregate).agg("_".join, axis=1).tolist()
+            ]
         else:
             # since aggregate is of length one, we can grab the first element
             dummies = pd.get_dummies(all_units[aggregate[0]])
